@@ -42,8 +42,12 @@ CaseOf(g, ins, feat) ==
    [prop |-> "C13", fam |-> "signature", kind |-> "model", op |-> "", attrs |-> <<>>, inputs |-> <<>>, nout |-> 0,
     allowed |-> NoCrash, cmp |-> "bits", feat |-> feat \o <<IF RunSem(g, ins).ok THEN "accept" ELSE "reject">>, known |-> <<>>,
     x |-> [model |-> ModelJ(g), calls |-> <<CallJ(g, ins)>>, checks |-> <<"inputs_unchanged", "weights_unchanged">>,
-           introspect |-> [names |-> InputNames(g.inputs),
-                           dimsize |-> [i \in 1..Len(g.inputs) |-> [name |-> g.inputs[i].name, axis |-> 0, r |-> InputDimSize(g.inputs, g.inputs[i].name, 0)]]]]]
+           introspect |-> [names |-> InputNames(g.inputs), outputs |-> g.outputs, hasparams |-> TRUE, params |-> SeqOfSet(DOMAIN g.inits),
+                           \* every axis of every input, the first axis beyond its rank, and a name that is not an input
+                           dimsize |-> [q \in 1..(Len(g.inputs) + 1) |->
+                                          IF q > Len(g.inputs) THEN [name |-> "nosuchinput", axis |-> 0, r |-> InputDimSize(g.inputs, "nosuchinput", 0)]
+                                          ELSE LET ax == (q - 1) % (Len(g.inputs[q].dims) + 1) IN
+                                               [name |-> g.inputs[q].name, axis |-> ax, r |-> InputDimSize(g.inputs, g.inputs[q].name, ax)]]]]]
 
 Supply(names, shapes) == [nm \in names |-> Iota("f32", shapes[nm], 0)]
 
